@@ -5,6 +5,7 @@ import ClaripyProofs.Lemmas.VSA.NotExt
 import ClaripyProofs.Lemmas.VSA.ShiftSound
 import ClaripyProofs.Lemmas.VSA.Signed
 import ClaripyProofs.Lemmas.VSA.Extract
+import ClaripyProofs.Lemmas.VSA.SextSound
 /-!
 # C21 — strided-interval transfer functions are sound
 
@@ -142,6 +143,18 @@ theorem C21_extract_sound (a r : SI) (hi lo : Nat) (ha : a.WF) (hab : a.bottom =
     (h : a.extract hi lo = .ok r) :
     (r.WF ∧ r.bits = hi + 1 - lo) ∧ ∀ x, a.mem x → r.mem (Conc.extract hi lo x) :=
   extract_sound a r hi lo ha hab hlo hhi h
+
+/-- `sign_extend` (all three routes: zero extension when every member is non-negative, shifted copy when every member is
+negative, north-pole split otherwise); operand in the form the constructor returns -/
+theorem C21_sext_sound (a r : SI) (nl : Nat) (ha : a.WF) (hab : a.bottom = false) (hn : a.renorm = a) (hnl : a.bits ≤ nl)
+    (h : a.signExtend nl = .ok r) :
+    (r.WF ∧ r.bits = nl) ∧ ∀ x, a.mem x → r.mem (Conc.sext a.bits nl x) :=
+  sext_sound a r nl ha hab hn hnl h
+
+/-- non-vacuity: an interval with members of both signs (the split route), and one with negative members only -/
+example : (SI.new 3 3 6 4).mem 1 ∧ (SI.new 3 3 6 4).mem 6 ∧ (∃ r, (SI.new 3 3 6 4).signExtend 5 = .ok r ∧ r.mem 1 ∧ r.mem 30) ∧
+    (∃ r, (SI.new 3 1 5 6).signExtend 5 = .ok r ∧ r.mem 29 ∧ ¬ r.mem 5) := by
+  refine ⟨by decide, by decide, ⟨_, rfl, by decide, by decide⟩, ⟨_, rfl, by decide, by decide⟩⟩
 
 /-- non-vacuity: bits 2..1 of a wrapping interval with an odd stride -/
 example : (SI.new 4 3 13 3).mem 13 ∧ (∃ r, (SI.new 4 3 13 3).extract 2 1 = .ok r ∧ r.mem 2 ∧ r.bits = 2) := by
